@@ -128,6 +128,11 @@ def gen(rng, tier, index):
         plan["ops"] = _gen_calc_ops(rng, rng.randint(4, 14 if tier == "quick" else 40))
     else:
         plan["ops"] = _gen_lf_ops(rng, rng.randint(3, 9 if tier == "quick" else 24))
+        # reading lnL / exporting rules may itself refresh lazily computed values and
+        # hide a stale one: after some ops nothing is read
+        for o in plan["ops"]:
+            o["peek"] = rng.random() < 0.6
+        plan["ops"][-1]["peek"] = True
         plan["fault_free"] = rng.random() < 0.3
         if plan["fault_free"]:
             plan["ops"] = [o for o in plan["ops"] if o["op"] not in ("bad_rule",)]
@@ -398,6 +403,9 @@ def run_lf(plan, res: RunResult):
                 res.fault(f"op_raised:{name}")
             fault = "none" if raised is None else f"{kind}-raised"
             trace.append(kind + ("!" if raised is not None else ""))
+            if not op.get("peek", True):
+                res.probe("step-not-observed")
+                continue
             if not oracle(kind, "after-raise" if raised is not None else "ok"):
                 return
         # (b) a forced full recomputation must not change the value
